@@ -85,8 +85,8 @@ def lineage_exec(dec):
 
 class HeartbeatUnit(Unit):
     name = 'OpenFilterLineage._heartbeat_loop / _emit_event / emit_*'
-    targets = tuple(f'{LINEAGE}::OpenFilterLineage.{m}' for m in ('_heartbeat_loop', '_emit_event', 'emit_start', 'emit_complete', 'emit_stop', 'stop_lineage_heart_beat'))
-    required_covers = ('heartbeat ended', 'emit checked')
+    targets = tuple(f'{LINEAGE}::OpenFilterLineage.{m}' for m in ('_heartbeat_loop', '_emit_event', 'emit_start', 'emit_complete', 'emit_stop', 'stop_lineage_heart_beat', 'start_lineage_heart_beat'))
+    required_covers = ('heartbeat ended', 'emit checked', 'emitter reused')
     mutants = (
         ('run id regenerated per event', f'{LINEAGE}::OpenFilterLineage._emit_event', 'run_obj = run or Run(runId=self.run_id, facets=run_facets)', 'run_obj = run or Run(runId=self.get_run_id(), facets=run_facets)', 'C18.run_id'),
         ('heartbeat ends without COMPLETE', f'{LINEAGE}::OpenFilterLineage._heartbeat_loop', '        self.emit_complete()', '        pass', 'C18.heartbeat'),
@@ -94,7 +94,7 @@ class HeartbeatUnit(Unit):
     )
 
     def shapes(self, tier):
-        return ['heartbeat', 'emit_start', 'emit_stop', 'emit_complete']
+        return ['heartbeat', 'emit_start', 'emit_stop', 'emit_complete', 'reuse']
 
     def run(self, shape, dec):
         ex, me, client, rid = lineage_exec(dec)
@@ -117,6 +117,21 @@ class HeartbeatUnit(Unit):
             kinds = [e.f['eventType'] for e in sent]
             O('C18.heartbeat: the heartbeat thread ends with exactly one COMPLETE, after RUNNING*', kinds.count('COMPLETE') == 1 and kinds[-1] == 'COMPLETE' and all(k == 'RUNNING' for k in kinds[:-1]))
             O('C18.heartbeat: it ends only after the stop event was set', me.f['_stop_event'].f['isset'] is True)
+        elif shape == 'reuse':
+            # a second run on the same (class-level) emitter: START, heartbeat (re)started while the stop event of the previous run is still set, then a terminal event
+            me.f['_stop_event'].f['isset'] = True
+            me.f['_thread'] = Obj('deadthread')
+            ex.models['deadthread'] = type('DT', (), {'m_is_alive': staticmethod(lambda ex_, o: False)})
+            ex.models['threadingmod'] = type('TM', (), {'m_Thread': staticmethod(lambda ex_, o, **kw: Obj('newthread')), 'm_Event': staticmethod(lambda ex_, o: Obj('hbevent', isset=False))})
+            ex.models['newthread'] = type('NT', (), {'m_start': staticmethod(lambda ex_, o: None), 'm_is_alive': staticmethod(lambda ex_, o: True)})
+            for g in ex.modules.values():
+                g['threading'] = Obj('threadingmod')
+            for meth, args in (('emit_start', [{'cfg': 1}]), ('start_lineage_heart_beat', []), ('_emit_event', ['RUNNING']), ('emit_stop', [])):
+                ex.call_closure(closure(LINEAGE, f'OpenFilterLineage.{meth}'), [me] + args, {})
+            ex.outcome = 'return'
+            ex.cover('emitter reused')
+            O('C18.run_id: all events of a run on a reused emitter carry ONE run id (START included)', len(sent) == 3 and all(e.f['run'].f['runId'] is sent[0].f['run'].f['runId'] for e in sent))
+            return ex
         else:
             args = [{'cfg': 1}] if shape == 'emit_start' else []
             ex.call_closure(closure(LINEAGE, f'OpenFilterLineage.{shape}'), [me] + args, {})
@@ -127,6 +142,37 @@ class HeartbeatUnit(Unit):
         for e in sent:
             O('C18.run_id: every event carries the run id generated once for this emitter', e.f['run'].f['runId'] is rid)
         return ex
+
+
+def replay_reuse(failure):
+    """native: two runs on ONE real OpenFilterLineage emitter with a capturing client; every run's events must carry one run id"""
+    import os, time
+    os.environ.pop('OPENLINEAGE_DISABLED', None)
+    from openfilter.observability.lineage import OpenFilterLineage
+
+    class Capture:
+        events = []
+
+        def emit(self, ev):
+            Capture.events.append((str(ev.eventType), ev.run.runId))
+    em = OpenFilterLineage(client=Capture(), interval=1, filter_name='F')
+    obs = []
+    for run in range(2):
+        Capture.events = []
+        em.emit_start({'cfg': 1})
+        em.start_lineage_heart_beat()
+        time.sleep(0.05)
+        em.stop_lineage_heart_beat()
+        if em._thread is not None:
+            em._thread.join(3)
+        em.emit_stop()
+        ids = {rid for _, rid in Capture.events}
+        if len(ids) != 1:
+            obs.append(f'run {run}: events carry {len(ids)} different run ids: {Capture.events}')
+    return {'confirmed': bool(obs), 'inputs': 'two runs on one emitter (emit_start, heartbeat start/stop, emit_stop)', 'observed': obs or 'one run id per run', 'required': 'all events of a run carry the same run id'}
+
+
+HeartbeatUnit.replay = lambda self, failure: replay_reuse(failure)
 
 
 def extra_checks(tier, seed, pool):
@@ -146,7 +192,7 @@ def extra_checks(tier, seed, pool):
            'bounded': [{'clause': 'C18.run_id is written only in __init__', 'kind': 'syntactic anchor (not a discharged obligation)', 'holds': ok}]}
     if not ok:
         out['failures'] = [{'obligation': 'C18.run_id: run_id is assigned only when the emitter is created', 'unit': 0, 'shape': 'anchor', 'model': None, 'extra': {'writers': writers},
-                            'goal': 'run_id assigned only in __init__', 'path_condition': [], 'solver': 'syntactic anchor', 'native': {'confirmed': False, 'detail': f'run_id assigned in {writers}'}}]
+                            'goal': 'run_id assigned only in __init__', 'path_condition': [], 'solver': 'syntactic anchor', 'native': replay_reuse(None)}]
     return out
 
 
